@@ -1,6 +1,6 @@
 //! C09 harness: emit a node tree with `YamlEmitter`, load the text back, re-emit the reloaded tree.
 //!
-//! usage: hx_c09 [rt] < cases > results
+//! usage: hx_c09 < cases > results
 //!
 //! Case line (tokens separated by one space): `c<0|1> m<0|1> <node>` where
 //!   c = compact flag, m = multiline_strings flag and <node> is a prefix encoding of the tree:
